@@ -4,10 +4,13 @@ from typing import *
 from hippolyzer.lib.base import llsd
 from hippolyzer.lib.base.message.data_packer import LLSDDataPacker
 from hippolyzer.lib.base.message.message import Message
+from hippolyzer.lib.base.message.msgtypes import MsgType
 from hippolyzer.lib.base.message.template import MessageTemplateVariable
 from hippolyzer.lib.base.message.template_dict import TemplateDictionary, DEFAULT_TEMPLATE_DICT
 
 VAR_PAIR = Tuple[dict, MessageTemplateVariable]
+# Template types LLSD can't represent natively, we send these as big-endian <binary>
+_BINARY_PACKED = (MsgType.MVT_IP_ADDR, MsgType.MVT_U32, MsgType.MVT_U64, MsgType.MVT_S64)
 
 
 class LLSDMessageSerializer:
@@ -54,5 +57,9 @@ class LLSDMessageSerializer:
 
         for block, tmpl_var in self._yield_vars(llsd_val):
             val = block[tmpl_var.name]
+            if tmpl_var.type in _BINARY_PACKED and not isinstance(val, bytes):
+                # Only the <binary> form needs unpacking. Other implementations (OpenSim) write
+                # the values that fit as plain LLSD integers / strings, those are usable as-is.
+                continue
             block[tmpl_var.name] = LLSDDataPacker.unpack(val, tmpl_var.type)
         return self._message_cls.from_dict(llsd_val)
